@@ -404,10 +404,32 @@ def step (F : CloneFacts) (st : State) : Op → State
 
 def exec (F : CloneFacts) (st : State) (ops : List Op) : State := ops.foldl (step F) st
 
-/-! ### the experiment the harness performs, per query -/
-
 inductive Kind | oci | blob
   deriving DecidableEq, Repr, FromJson, ToJson
+
+/-! ### the part of document validity that selection depends on
+
+`Validate` is property C09. C08 needs - and therefore observes - only its uniqueness rules:
+`validateRegistryScopes` counts every scope (the wildcard included) over the whole document and
+refuses a count above one, refuses a wildcard next to other scopes; `Validate` refuses duplicate
+statement names and a second global blob statement. Everything else about validity (levels,
+stores, identities, scope format, at least one statement / scope) is kept valid by the generator
+and is C09's business. -/
+
+/-- consequences of document validity (C09) that selection relies on -/
+def scopesUnique (d : List Stmt) : Bool :=
+  decide (d.flatMap (·.scopes)).Nodup && d.all (fun s => !s.scopes.contains wildcard || s.scopes == [wildcard])
+
+def namesUnique (d : List Stmt) : Bool := decide (d.map (·.name)).Nodup
+
+def oneGlobal (d : List Stmt) : Bool := (d.filter (·.isGlobal)).length ≤ 1
+
+def wfDoc (k : Kind) (d : List Stmt) : Bool :=
+  match k with
+  | .oci => scopesUnique d && namesUnique d
+  | .blob => namesUnique d && oneGlobal d
+
+/-! ### the experiment the harness performs, per query -/
 
 structure Input where
   kind : Kind
@@ -415,8 +437,12 @@ structure Input where
   queries : List Text       -- oci: artifact references; blob: policy names
   deriving Repr, FromJson, ToJson
 
+/-- the uniqueness part of validity, of an input -/
+def WF (i : Input) : Bool := wfDoc i.kind i.stmts
+
 structure QObs where
   selected : Option Text    -- name of the statement handed out by the document's selection; none = error
+  reversedSelected : Option Text  -- the same selection on the document with its statements in reverse order
   refRejected : Bool        -- oci: the reference is refused on its own (also by a wildcard-only document)
   viaVerify : Text          -- through verifier.Verify / VerifyBlob: "stmt:<name>", "no-applicable-policy", "other"
   viaSkip : Text            -- oci: through verifier.SkipVerify, same vocabulary; blob: ""
@@ -425,7 +451,9 @@ structure QObs where
   deriving DecidableEq, Repr, FromJson, ToJson
 
 structure Obs where
-  queries : List QObs
+  validated : Bool          -- the document's own Validate() accepts it
+  verifierAccepts : Bool    -- verifier.NewVerifierWithOptions accepts it
+  queries : List QObs       -- empty when the document was refused (no selection takes place)
   globalSel : Option QObs   -- blob: GetGlobalTrustPolicy() (viaVerify: VerifyBlob without a name); oci: none
   deriving DecidableEq, Repr, FromJson, ToJson
 
@@ -446,6 +474,10 @@ def classOf : Except SelErr Stmt → Text
   | .ok s => stmtTag s.name
   | .error _ => noPolicy        -- verifier.go wraps every selection error in ErrorNoApplicableTrustPolicy
 
+def nameOf : Except SelErr Stmt → Option Text
+  | .ok s => some s.name
+  | .error _ => none
+
 def mkQuery (k : Kind) (t : Text) : Query :=
   match k with
   | .oci => .oci t
@@ -455,9 +487,10 @@ def mkQuery (k : Kind) (t : Text) : Query :=
 `pristine` is the document as configured; `viaV`/`viaS` are computed on the verifier's own document. -/
 def runQuery (F : CloneFacts) (pristine : List Stmt) (st : State) (q : Query)
     (refRejected : Bool) (viaV viaS : Text) : QObs × State :=
+  let rev := nameOf (selectQ pristine.reverse q)
   match selectQ st.doc q with
   | .error _ =>
-    ({ selected := none, refRejected := refRejected, viaVerify := viaV, viaSkip := viaS,
+    ({ selected := none, reversedSelected := rev, refRejected := refRejected, viaVerify := viaV, viaSkip := viaS,
        copyEqual := true, intact := true }, st)
   | .ok s =>
     let c := clone F q.isBlob s
@@ -469,8 +502,8 @@ def runQuery (F : CloneFacts) (pristine : List Stmt) (st : State) (q : Query)
     let intact := match selectQ st2.doc q with
       | .ok s2 => decide ((clone F q.isBlob s2).read st3.doc = got)
       | .error _ => false
-    ({ selected := some got.name, refRejected := refRejected, viaVerify := viaV, viaSkip := viaS,
-       copyEqual := pristine.contains got, intact := intact }, st3)
+    ({ selected := some got.name, reversedSelected := rev, refRejected := refRejected, viaVerify := viaV,
+       viaSkip := viaS, copyEqual := pristine.contains got, intact := intact }, st3)
 
 def runQueries (F : CloneFacts) (i : Input) : List Text → State → List QObs × State
   | [], st => ([], st)
@@ -483,29 +516,23 @@ def runQueries (F : CloneFacts) (i : Input) : List Text → State → List QObs 
     let (os, st'') := runQueries F i r st'
     (o :: os, st'')
 
-def runWith (F : CloneFacts) (i : Input) : Obs :=
+/-- the experiment on a document that passed validation -/
+def runValid (F : CloneFacts) (i : Input) : Obs :=
   let (qs, st) := runQueries F i i.queries { doc := i.stmts, handles := [] }
-  { queries := qs
+  { validated := true, verifierAccepts := true, queries := qs
     globalSel := match i.kind with
       | .oci => none
       | .blob => some (runQuery F i.stmts st .global false (classOf (selectGlobal i.stmts)) []).1 }
 
+/-- a document that breaks a uniqueness rule is refused by `Validate` and by the verifier's
+constructor: no selection ever takes place on it -/
+def refused : Obs := { validated := false, verifierAccepts := false, queries := [], globalSel := none }
+
+def runWith (F : CloneFacts) (i : Input) : Obs := if WF i then runValid F i else refused
+
 def run (i : Input) : Obs := runWith currentFacts i
 
 /-! ### specification -/
-
-/-- consequences of document validity (C09) that selection relies on -/
-def scopesUnique (d : List Stmt) : Bool :=
-  decide (d.flatMap (·.scopes)).Nodup && d.all (fun s => !s.scopes.contains wildcard || s.scopes == [wildcard])
-
-def namesUnique (d : List Stmt) : Bool := decide (d.map (·.name)).Nodup
-
-def oneGlobal (d : List Stmt) : Bool := (d.filter (·.isGlobal)).length ≤ 1
-
-def WF (i : Input) : Bool :=
-  match i.kind with
-  | .oci => scopesUnique i.stmts && namesUnique i.stmts
-  | .blob => namesUnique i.stmts && oneGlobal i.stmts
 
 /-- THE element of a list, when it has exactly one -/
 def the {α : Type} : List α → Option α
@@ -548,10 +575,14 @@ def forall₂ {α β : Type} (p : α → β → Bool) : List α → List β → 
   | a :: as, b :: bs => p a b && forall₂ p as bs
   | _, _ => false
 
-/-- the property over observables -/
-def clauses (i : Input) (o : Obs) : Clauses :=
+def allQ (o : Obs) (p : QObs → Bool) : Bool := o.queries.all p && (o.globalSel.map p).getD true
+
+/-- the selection clauses, for a document that satisfies the uniqueness rules -/
+def selectionClauses (i : Input) (o : Obs) : Clauses :=
   [ ("selected_is_the_statement_scoped_to_the_repository_else_the_wildcard_else_refused",
       forall₂ (fun t r => r.selected == expected i t) i.queries o.queries),
+    ("selection_independent_of_statement_order",
+      allQ o (fun r => r.selected == r.reversedSelected)),
     ("refused_reference_selects_nothing",
       o.queries.all (fun r => !r.refRejected || r.selected.isNone)),
     ("verifier_applies_the_same_statement_or_refuses_with_the_no_applicable_policy_error",
@@ -563,10 +594,17 @@ def clauses (i : Input) (o : Obs) : Clauses :=
       | .blob, some g => g.selected == expectedGlobal i.stmts &&
           g.viaVerify == classOfExpected (expectedGlobal i.stmts)
       | .blob, none => false),
-    ("handed_out_statement_equals_the_original",
-      o.queries.all (·.copyEqual) && (o.globalSel.map (·.copyEqual)).getD true),
-    ("mutating_a_handed_out_copy_does_not_affect_later_selections",
-      o.queries.all (·.intact) && (o.globalSel.map (·.intact)).getD true) ]
+    ("handed_out_statement_equals_the_original", allQ o (·.copyEqual)),
+    ("mutating_a_handed_out_copy_does_not_affect_later_selections", allQ o (·.intact)) ]
+
+/-- the property over observables. A document that breaks a uniqueness rule must be refused by
+validation (then nothing is ever selected from it); for such a document every selection clause
+reads "expected = refused by validation", i.e. there must be no selection result at all. -/
+def clauses (i : Input) (o : Obs) : Clauses :=
+  [ ("only_unique_documents_validate", WF i || (!o.validated && !o.verifierAccepts)),
+    ("verifier_is_built_only_from_a_validated_document", !o.verifierAccepts || o.validated) ] ++
+  (if WF i then selectionClauses i o
+   else (selectionClauses i o).map (fun c => (c.1, o.queries.isEmpty && o.globalSel.isNone)))
 
 def Holds (i : Input) (o : Obs) : Bool := (clauses i o).holds
 
